@@ -28,6 +28,7 @@ STRATA = [
     ("dense", 3000, 40000),
     ("big", 300, 4000),
     ("matching-deg2", 4000, 50000),
+    ("huge", 600, 8000),
     ("twoway-grid", 3000, 40000),
 ]
 REQUIRED_EVENTS = {"any": ["mf.check.capacity", "mf.check.conservation", "mf.check.objective",
@@ -46,9 +47,17 @@ def setup():
 # ---------------------------------------------------------------- generators
 
 def _labels(rng, n):
-    kind = rng.choice(["int", "perm", "str", "tuple", "mixed", "int", "perm"])
+    kind = rng.choice(["int", "perm", "str", "tuple", "mixed", "int", "perm", "falsy"])
     if kind == "int":
         return list(range(n))
+    if kind == "falsy" and n <= 60:
+        # None, "", () and frozenset() are ordinary hashable node labels
+        special = [None, "", (), frozenset()]
+        rng.shuffle(special)
+        labs = [100 + i for i in range(n)]
+        for k, pos in enumerate(rng.sample(range(n), min(n, rng.randint(1, len(special))))):
+            labs[pos] = special[k]
+        return labs
     if kind == "perm":
         ids = rng.sample(range(0, 3 * n + 5), n)
         return ids
@@ -268,6 +277,17 @@ def gen(stratum, rng, tier):
         for _ in range(rng.randint(2 * n, 5 * n)):
             u, v = rng.sample(range(n), 2)
             arcs.append((u, v, rng.choice([1, 1, 2, 3, 5, 9])))
+        return _finish(rng, n, arcs, s, t)
+    if stratum == "huge":
+        # capacities far beyond 2**53: everything (flows, objective) must stay exact integers
+        n = rng.randint(3, 6)
+        s, t = rng.sample(range(n), 2)
+        big = [2 ** 53 + 1, 2 ** 53 + 3, 10 ** 18 + 7, 2 ** 70 + 5, 2 ** 62 - 1, 3, 1]
+        arcs = []
+        for u in range(n):
+            for v in range(n):
+                if u != v and rng.random() < 0.5:
+                    arcs.append((u, v, rng.choice(big)))
         return _finish(rng, n, arcs, s, t)
     if stratum == "matching-deg2":
         # unit-capacity bipartite matchings where every left node has (about) two candidate partners: long
